@@ -19,6 +19,7 @@ def run(tier, seed):
     nsh = core.NCPU if tier == "thorough" else min(8, core.NCPU)
     cases, sums, notes = core.run_sharded(exe, "c05", seed, tier, nsh, timeout=3000)
     r.add_cases(cases, "native")
+    core.also_librel(r, tier, True, lambda exe2: core.run_sharded(exe2, "c05", seed, tier, nsh, timeout=3000))
     r.notes += notes
     obs = core.sum_dicts(sums)
     r.observe("native", obs)
@@ -55,7 +56,7 @@ def memcheck(r, exe, seed):
 def replay(path):
     import subprocess
     rp = core.load_replay(path)
-    exe = core.build_native()
+    exe = core.build_native(libopt="librel" in str(rp.get("engine", "")))
     p = subprocess.run([exe, "c05", "--seed", str(rp["seed"]), "--tier", rp["tier"], "--only", str(rp["case_index"])], stdout=subprocess.PIPE, text=True)
     print(p.stdout[-3000:])
     bad = '"verdict":"violated"' in p.stdout or p.returncode != 0
